@@ -292,9 +292,21 @@ func c15Run(ci any) (out Outcome) {
 			cc.Reattach = &rc
 			cl := plugin.NewClient(cc)
 			_, err := cl.Start()
+			// asking the same client again must not turn the failure into a connection
+			addr2, err2 := cl.Start()
+			_, err3 := cl.Client()
+			rc2 := cl.ReattachConfig()
 			killBounded(cl, 20*time.Second)
 			if err == nil {
 				out.violate("step %d: reattach to a dead plugin succeeded", step)
+				return
+			}
+			if err2 == nil || err3 == nil {
+				out.violate("step %d: reattach to a dead plugin failed (%v) but a second Start on the same client returned addr=%v err=%v and Client() err=%v", step, err, addr2, err2, err3)
+				return
+			}
+			if rc2 != nil {
+				out.violate("step %d: reattach to a dead plugin failed (%v) but the client then offers a ReattachConfig: %+v", step, err, *rc2)
 				return
 			}
 			if !errors.Is(err, plugin.ErrProcessNotFound) {
